@@ -208,6 +208,8 @@ class Evaluator:
     def eval(self, n):
         n = self.node(n)
         k = self.kind(n)
+        if k == 'ND_NULL_EXPR':
+            return 0
         if k == 'ND_NUM':
             t = self.tname(n)
             return conv(t, n.fields.get('fval') if t in FPR else n.fields.get('val'))
@@ -568,3 +570,201 @@ def r_bitfield_operands(P, rep, rule):
                 key = 'type.c:add_type:bit-field-operand/%s:not-promoted-to-int' % cname
             rep.ob(rule, key, not bad, 'a bit-field `%s : %d` as operand: %s. C11 6.3.1.1p2 promotes a bit-field whose values all fit an int to int (the width, not the declared type, decides) - '
                    'e.g. `s.u - 2 < 0` is true for `unsigned u : 3` holding 1' % ({'uint': 'unsigned', 'bool': '_Bool'}.get(decl, decl), width, '; '.join(bad)), where=where)
+
+
+# ------------------------------------------------------------------ expressions whose value is a bit-field ---
+VALUE_FORMS = [('simple-assignment', 'x = b', 'C11 6.5.16p3: an assignment expression has the type the left operand would have after lvalue conversion'),
+               ('comma', '(b, x)', 'C11 6.5.17p2: the result of the comma operator has the type and value of its right operand'),
+               ('compound-assignment', '++x / x += b', 'C11 6.5.16.2p3 and 6.5.3.1p2: x op= b and ++x are equivalent to x = x op b'),
+               ('postfix-increment', 'x++', 'C11 6.5.2.4p2: the result of postfix ++ is the value of the operand'),
+               ('explicit-cast', '(T)x', 'C11 6.5.4p5: a cast converts the value to the named type; the result is no bit-field any more')]
+
+
+def r_bitfield_values(P, rep, rule):
+    """R01.16 (second half): an expression that yields the value of a bit-field without being the member access itself (the operators whose result
+    has 'the type of' an operand: = op= ++ -- and the comma operator) is promoted like the bit-field (C11 6.7.2.1p10: a bit-field has an integer
+    type of `width` bits; 6.3.1.1p2: an int if int holds all its values), while an explicit cast to the declared type is not.
+    Decided on the trees the lowering helpers build (to_assign, new_inc_dec run for real) with add_type run on `<form> - b` and `<form> < b`."""
+    from .lib_types import common
+    B = Builder(P)
+    T, E = B.T, B.E
+    where = 'type.c:%d' % T.tu.fn('add_type').line
+    for k in ('ND_SUB', 'ND_LT', 'ND_ASSIGN', 'ND_COMMA', 'ND_CAST', 'ND_VAR'):
+        if k not in E:
+            raise AnalysisBroken('enumerator %s vanished' % k)
+
+    def operand_class(it, n, inner):
+        """class of the type `inner` takes part with: the outermost conversion wrapped around it by add_type"""
+        n = it.settle(n) if isinstance(n, View) else n
+        t, d = None, 0
+        while isinstance(n, Obj) and n is not inner and n.fields.get('kind') == E['ND_CAST'] and d < 6:
+            t = t or T.classify(it, n.fields.get('ty'))
+            n = n.fields.get('lhs')
+            n = it.settle(n) if isinstance(n, View) else n
+            d += 1
+        if n is not inner:
+            raise NotEvaluable('the operand is no longer the expression under conversions')
+        return t or T.classify(it, inner.fields.get('ty'))
+
+    for name, decl, width in C11_BITFIELDS:
+        pt = promoted(decl, width)
+        forms = {}
+        try:
+            pre = B.trees('unary', decl, width, ('cast', 'unary')).get('++', [])
+            post = B.trees('postfix', decl, width, ('primary',)).get('++', [])
+        except AnalysisBroken as e:
+            rep.undecided(rule, 'type.c:add_type:bit-field-valued/%s' % name, 'unary()/postfix() not explorable: %s' % e, where=where)
+            continue
+        if len(pre) == 1:
+            forms['compound-assignment'] = pre[0][:3]
+        if len(post) == 1:
+            forms['postfix-increment'] = post[0][:3]
+        if pre:
+            it, ctx = pre[0][0], pre[0][1]
+            it.ctx = ctx
+            for form in ('simple-assignment', 'comma', 'explicit-cast'):
+                leaf = B.operand(it, decl, width)
+                tok = leaf.fields['tok']
+                o = Obj('Node', lazy=False, label='B', fields={'kind': E['ND_VAR'], 'ty': T.make(it, 'int'), 'tok': tok})
+                if form == 'simple-assignment':
+                    f = Obj('Node', lazy=False, label='F', fields={'kind': E['ND_ASSIGN'], 'lhs': leaf, 'rhs': o, 'tok': tok})
+                elif form == 'comma':
+                    f = Obj('Node', lazy=False, label='F', fields={'kind': E['ND_COMMA'], 'lhs': o, 'rhs': leaf, 'tok': tok})
+                else:
+                    f = Obj('Node', lazy=False, label='F', fields={'kind': E['ND_CAST'], 'lhs': leaf, 'ty': T.make(it, decl), 'tok': tok})
+                forms[form] = (it, ctx, f)
+        for form, text, clause in VALUE_FORMS:
+            key = 'type.c:add_type:bit-field-valued/%s/%s' % (name, form)
+            if form not in forms:
+                rep.undecided(rule, key, 'no single tree found for the form %s' % text, where=where)
+                continue
+            it, ctx, f = forms[form]
+            vt = decl if form == 'explicit-cast' else pt          # type the value takes part with after the integer promotions
+            bad = []
+            try:
+                for kind, other in (('ND_SUB', 'int'), ('ND_LT', 'int'), ('ND_SUB', 'long')):
+                    it.ctx = ctx
+                    tok = Obj('Token', lazy=True, label='op.tok')
+                    o = Obj('Node', lazy=False, label='B', fields={'kind': E['ND_VAR'], 'ty': T.make(it, other), 'tok': tok})
+                    # each use gets its own copy of the top node only when the form is shared: add_type is idempotent on typed nodes
+                    n = Obj('Node', lazy=False, label='node', fields={'kind': E[kind], 'lhs': f, 'rhs': o, 'tok': tok})
+                    typed(it, ctx, n)
+                    got_op = operand_class(it, n.fields.get('lhs'), f)
+                    nt = T.classify(it, n.fields.get('ty'))
+                    want_op = common(vt, other)
+                    want_nt = 'int' if kind == 'ND_LT' else want_op
+                    if (got_op, nt) != (want_op, want_nt):
+                        bad.append('%s with %s on the right: operand taken as %s, result %s (C11: %s, %s)' % (kind, other, got_op, nt, want_op, want_nt))
+            except NotEvaluable as e:
+                rep.undecided(rule, key, str(e), where=where)
+                continue
+            except AnalysisBroken as e:
+                rep.undecided(rule, key, 'add_type not interpretable on the tree built for %s: %s' % (text, e), where=where)
+                continue
+            if bad:
+                key = 'type.c:add_type:bit-field-valued/%s:%s' % (form, 'not-promoted-to-int' if vt == 'int' else 'promoted-despite-%s' % vt)
+            rep.ob(rule, key, not bad, 'the expression %s with x a bit-field `%s : %d`: %s. %s; a bit-field has an integer type of `width` bits (6.7.2.1p10) which 6.3.1.1p2 promotes to int when int '
+                   'holds all its values - e.g. `(s.u = 7) - 8 < 0` is true for `unsigned u : 3`' % (text, {'uint': 'unsigned', 'bool': '_Bool'}.get(decl, decl), width, '; '.join(bad), clause), where=where)
+
+
+# ------------------------------------------------------------------ the size of a variable length array type ---
+VLA_LEN_TYPES = ['bool', 'char', 'uchar', 'short', 'ushort', 'int', 'uint', 'long', 'ulong', 'enum']
+BIG_ELEMENT = 1 << 20
+
+
+def r_vla_size_arith(P, rep, rule):
+    """R01.17: the size of a VLA type (what sizeof yields and what is allocated) is length * element size computed in size_t (C11 6.5.3.4p2,p5),
+    whatever the integer type of the length expression. compute_vla_size runs for real on a VLA type whose length is a variable of each
+    integer type; the returned tree, typed by add_type, is evaluated on boundary lengths and the value left in the type's size variable is
+    compared with the mathematical product (whenever that fits an object: < 2^63)."""
+    B = Builder(P)
+    T, E, pu = B.T, B.E, B.pu
+    fn = 'compute_vla_size'
+    if fn not in pu.functions:
+        raise AnalysisBroken('parse.c: %s vanished' % fn)
+    for k in ('TY_VLA', 'TY_ARRAY', 'ND_NULL_EXPR'):
+        if k not in E:
+            raise AnalysisBroken('enumerator %s vanished' % k)
+    where = 'parse.c:%d' % pu.fn(fn).line
+    for lt in VLA_LEN_TYPES:
+        for shape in ('int-elements', 'large-elements', 'vla-of-vla'):
+            key = 'parse.c:%s:size-in-size_t/%s-length/%s' % (fn, lt, shape)
+            it = Interp(P, pu, {'opaque': ['new_unique_name', 'error_tok'], 'rec_limit': 16, 'max_depth': 120,
+                                'models': {'new_lvar': lambda it_, ctx, n, a: Obj('Obj', lazy=False, label=ctx.fresh('tmp'), fields={'ty': a[1], 'name': a[0], 'is_local': 1})}})
+            box = {}
+
+            def mk(ctx, lt=lt, shape=shape):
+                it.ctx = ctx
+                tok = Obj('Token', lazy=True, label='tok')
+                if shape == 'large-elements':
+                    el = Obj('Type', lazy=False, label='char[%d]' % BIG_ELEMENT, fields={'kind': E['TY_ARRAY'], 'size': BIG_ELEMENT, 'align': 1, 'is_unsigned': 0, 'is_atomic': 0,
+                                                                                      'base': T.make(it, 'char'), 'array_len': BIG_ELEMENT, 'vla_len': 0, 'vla_size': 0})
+                    esz = BIG_ELEMENT
+                else:
+                    el = T.make(it, 'int')
+                    esz = 4
+                lens, tys, base = [], [], el
+                for d in range(2 if shape == 'vla-of-vla' else 1):
+                    lty = T.make(it, lt)
+                    var = Obj('Obj', lazy=False, label='n%d' % d, fields={'ty': lty, 'is_local': 1, 'name': 'n%d' % d})
+                    ln = Obj('Node', lazy=False, label='len%d' % d, fields={'kind': E['ND_VAR'], 'var': var, 'tok': tok})
+                    t = Obj('Type', lazy=False, label='vla%d' % d, fields={'kind': E['TY_VLA'], 'size': 8, 'align': 8, 'is_unsigned': 0, 'is_atomic': 0, 'base': base, 'vla_len': ln, 'vla_size': 0, 'array_len': 0})
+                    lens.append(ln); tys.append(t); base = t
+                box.update(lens=lens, tys=tys, esz=esz)
+                return [tys[-1], tok]
+            try:
+                outs = [(ctx, out[1]) for ctx, out in it.explore(fn, mk) if out[0] == 'ret']
+                if len(outs) != 1:
+                    rep.undecided(rule, key, '%s has %d returning paths' % (fn, len(outs)), where=where)
+                    continue
+                ctx, tree = outs[0]
+                tree = it.settle(tree) if isinstance(tree, View) else tree
+                typed(it, ctx, tree)
+            except AnalysisBroken as e:
+                rep.undecided(rule, key, '%s / add_type not interpretable: %s' % (fn, e), where=where)
+                continue
+            lens, tys, esz = box['lens'], box['tys'], box['esz']
+            lo, hi = value_range(lt)
+            xs = [v for v in boundary_values(lt) if v >= 1]
+            combos = [(x,) for x in xs] if len(lens) == 1 else [(x, y) for x in xs for y in xs]
+            bad = None
+            undec = None
+            n_eval = 0
+            for combo in combos:
+                want = esz
+                for x in combo:
+                    want *= x
+                if want >= 2 ** 63:
+                    continue                      # no object of that size: nothing prescribed
+                ev = Evaluator(it, T, E)
+                try:
+                    for ln, x in zip(lens, combo):
+                        ev.mem[ev.place(ln)] = x
+                    ev.eval(tree)
+                    sv = tys[-1].fields.get('vla_size')
+                    sv = it.settle(sv) if isinstance(sv, View) else sv
+                    if not isinstance(sv, Obj):
+                        bad = ('no-size-variable', 'the type has no size variable after compute_vla_size'); break
+                    p = ('var', id(sv))
+                    if p not in ev.mem:
+                        bad = ('size-variable-not-set', 'the expression does not store to the size variable of the type'); break
+                    got = ev.mem[p]
+                except UnwrittenRead:
+                    bad = ('reads-unwritten-variable', 'the expression reads a variable before anything is stored to it'); break
+                except NotEvaluable as e:
+                    undec = str(e); break
+                n_eval += 1
+                if got != want:
+                    mul_t = None
+                    bad = ('product-not-computed-in-size_t', 'for %s the size variable receives %d; C11 prescribes %d (the product is computed in a type narrower than size_t and wraps)' % (
+                        ' x '.join(['%d' % x for x in combo] + ['%d-byte elements' % esz]), got, want))
+                    break
+            if undec:
+                rep.undecided(rule, key, 'the tree built by %s is not evaluable: %s' % (fn, undec), where=where)
+                continue
+            if not bad and n_eval == 0:
+                rep.undecided(rule, key, 'no boundary length evaluated', where=where)
+                continue
+            if bad:
+                key = 'parse.c:%s:size-in-size_t/%s:%s' % (fn, shape, bad[0])
+            rep.ob(rule, key, not bad, 'sizeof / allocation of a variable length array whose length has type %s: %s' % (lt, bad[1] if bad else ''), where=where)
